@@ -151,9 +151,26 @@ def run_group(g, reach=False, keep=False):
         cc = ["goto-cc"] + defs + include_flags()
         for c in g.contracts:
             cc += ["-include", os.path.join(VERIF, c)]
+        base_cc = list(cc)
         cc += ["--function", g.entry, os.path.join(VERIF, g.harness)]
+        n_sep = 0
         for s in g.srcs:
-            cc.append(s if os.path.isabs(s) else os.path.join(REPO, s))
+            if isinstance(s, (tuple, list)):
+                # (path, [extra -D]) : compiled separately (e.g. to rename a function that a
+                # specification stub in the harness stands in for), then linked
+                path, extra = s
+                path = path if os.path.isabs(path) else os.path.join(REPO, path)
+                obj = os.path.join(d, "sep%d.o" % n_sep)
+                n_sep += 1
+                c1 = base_cc + ["-D" + x for x in extra] + ["-c", path, "-o", obj]
+                rc, out, err, dt = _run(c1, d, 300, logf)
+                r.cmds.append(" ".join(c1))
+                if rc != 0 or not os.path.exists(obj):
+                    r.error = "goto-cc failed: " + (err or out)[-1500:]
+                    return r
+                cc.append(obj)
+            else:
+                cc.append(s if os.path.isabs(s) else os.path.join(REPO, s))
         a = os.path.join(d, "a.gb")
         cc += ["-o", a]
         rc, out, err, dt = _run(cc, d, 300, logf)
